@@ -26,7 +26,8 @@ Scopes
                       flips equals the score on the base tree and the oracle minimum.
   history@pairs       one tree object scored twice/three times: every ordered pair of one-column matrices over
                       {A,C,R,-} (thorough {A,C,G,R,-,?}) on the 3-leaf shapes, and sampled pairs on 4 leaves, with every
-                      combination of gap modes.  The k-th call must return what a freshly built tree returns (= oracle).
+                      combination of gap modes.  The k-th call must return what the same call on a freshly built tree
+                      returns (the relational clause of the statement; minimality is the business of the other scopes).
                       Separate monitors (classified against the first call on the object): a repeat of the first call,
                       the first matrix with the other gap mode, another matrix; and the same for fitch_down_pass without
                       node attributes.
@@ -372,13 +373,15 @@ def run_history(acc, api, t, taxa, dtype, calls, size):
         except Exception as e:
             acc.fail(mon + ".raises" if k else "%s.raises" % api, key, "%s: %s" % (type(e).__name__, e), witness, size + k)
             return
-        if k >= 1:
-            acc.case(key, want != sum(P.column_minima(t, calls[k - 1][0], dtype, calls[k - 1][1])))
-        if got != want:
-            acc.fail(mon, key, "call %d on the same tree object returns %r; a freshly built tree gives %r (minimum %r)"
-                     % (k + 1, got, fresh_score(api, t, taxa, dtype, rows, gap), want), witness, size + k)
-            if k == 0:
-                return
+        if k == 0:
+            continue        # an ordinary fresh-tree evaluation: minimality is reported by the other scopes
+        acc.case(key, want != sum(P.column_minima(t, calls[k - 1][0], dtype, calls[k - 1][1])))
+        fresh = fresh_score(api, t, taxa, dtype, rows, gap)
+        if isinstance(fresh, str):
+            continue        # the fresh call itself raises: reported by the .raises monitors
+        if got != fresh:
+            acc.fail(mon, key, "call %d on the same tree object returns %r; the same call on a freshly built tree returns %r "
+                     "(minimum number of changes %r)" % (k + 1, got, fresh, want), witness, size + k)
 
 
 def fresh_score(api, t, taxa, dtype, rows, gap):
